@@ -67,6 +67,9 @@ def ghost_app(c):
     g["teardowns"] = c.fresh("int", "teardowns")
     for n in ("attempts", "opened_handles", "resched", "live_ping_threads"):
         g.setdefault(n, c.fresh("int", n))
+    g.setdefault("last_attempt_clock", c.fresh("real", "last_attempt_clock"))
+    # D: number of callbacks other than on_error delivered after this run's on_close (-1 while on_close is still to come)
+    g.setdefault("D", c.fresh("int", "D"))
 
 
 CB_NAMES = ["on_open", "on_reconnect", "on_message", "on_data", "on_error", "on_close", "on_ping", "on_pong", "on_cont_message"]
@@ -127,13 +130,57 @@ def app_ws_inv(c, app, view=None):
 
 
 def app_closed_by_callback(c, app):
-    """effect of app.close() called from a user callback: not running any more, socket closed (handle released) and dropped."""
+    """effect of app.close() possibly called from a user callback (symbolic flag, no path fork): not running any more,
+    socket closed (handle released) and dropped."""
+    b = smt.fresh(smt.Bool, "closed_by_callback")
     had = has_transport(c, app)
-    c.ghost["closed_handles"] = SV("int", z(c.ghost["closed_handles"]) + z3.If(had, 1, 0))
-    c.setf(app, "keep_running", False)
-    c.setf(app, "sock", None)
-    c.ghost["auto_close"] = c.fresh("int", "auto_close")
-    c.ghost["wire"] = c.fresh("bytes", "wire")
+    c.ghost["closed_handles"] = SV("int", z(c.ghost["closed_handles"]) + z3.If(z3.And(b, had), 1, 0))
+    kr = c.getf(app, "keep_running")
+    c.setf(app, "keep_running", SV("bool", z3.And(z3.Not(b), z(kr, "bool"))))
+    s_ = c.getf(app, "sock")
+    ws = unopt(s_)
+    c.setf(app, "sock", None if ws is None else OptV(z3.Or(b, zn(s_)), ws))
+    for g, tg in (("auto_close", "int"), ("wire", "bytes")):
+        c.ghost[g] = SV(tg, z3.If(b, smt.fresh(smt.Int if tg == "int" else smt.Sq, g), z(c.ghost[g])))
+
+
+def havoc_sock(c, app, old):
+    """app.sock afterwards: still the same WebSocket object, or dropped."""
+    s_ = old.getf(app, "sock")
+    ws = unopt(s_)
+    c.setf(app, "sock", None if ws is None else OptV(smt.fresh(smt.Bool, "app.sock.isnone"), ws))
+
+
+def cur_ws(c, app, old=None):
+    """WebSocket objects a closure may touch: the app's current one (and the one it had at entry)."""
+    out = []
+    for v in ([old] if old is not None else []) + [c]:
+        try:
+            w = unopt(v.getf(app, "sock"))
+        except KeyError:
+            w = None
+        if isinstance(w, Ref) and w.id in c.heap and all(w.id != x.id for x in out):
+            out.append(w)
+    w = app_ws.get(app.id)
+    if w is not None and w.id in c.heap and all(w.id != x.id for x in out):
+        out.append(w)
+    return out
+
+
+def d_step(D, cb, oe):
+    """D after one _callback(cb, ...) call: +1 unless cb is unset or is the on_error callback itself."""
+    ext, oex = unopt(cb), unopt(oe)
+    if ext is None:
+        return D
+    is_err = z3.BoolVal(False) if oex is None else z3.And(z3.Not(zn(oe)), z3.BoolVal(ext.id == oex.id))
+    return D + z3.If(z3.Or(zn(cb), is_err), 0, 1)
+
+
+def D_OK(c, old, app):
+    """whatever happened, no callback other than on_error was delivered after this run's on_close."""
+    done0, done1 = z(old.getf(app, "has_done_teardown"), "bool"), z(c.getf(app, "has_done_teardown"), "bool")
+    D0, D1 = z(old.ghost["D"]), z(c.ghost["D"])
+    return z3.And(z3.Implies(z3.And(done1, done0), D1 <= z3.If(D0 > 0, D0, 0)), z3.Implies(z3.And(done1, z3.Not(done0)), D1 <= 0))
 
 
 def log_append(log, cb, args):
@@ -152,6 +199,9 @@ def install(e):
     install_loop(e)
     install_read(e)
     install_run(e)
+    install_run2(e)
+    install_run3(e)
+    install_run_forever(e)
 
 
 def install_callbacks(e):
@@ -162,7 +212,7 @@ def install_callbacks(e):
         app = args[0]
         c.ghost["raw"] = SV("log", Log.snoc(z(c.ghost["raw"]), mk_event(cb.id, args[1:])))
         # a callback may call app.close(): keep_running' = False and the socket is dropped
-        if isinstance(app, Ref) and c.hasf(app, "keep_running") and c.choose(2) == 1:
+        if isinstance(app, Ref) and c.hasf(app, "keep_running"):
             app_closed_by_callback(c, app)
     e.add(Contract("ext:callback.__call__", assumed=True, havoc=cb_havoc,
                    raises=[(Exception, None, None), (KeyboardInterrupt, None, None), (SystemExit, None, None)],
@@ -188,7 +238,7 @@ def install_callbacks(e):
         ext = unopt(cb)
         oe = old.getf(app, "on_error")
         if ext is None:
-            return z3.And(z(c.ghost["dl"]) == dl0, z(c.ghost["raw"]) == raw0)
+            return z3.And(z(c.ghost["dl"]) == dl0, z(c.ghost["raw"]) == raw0, z(c.ghost["D"]) == z(old.ghost["D"]))
         ev = mk_event(ext.id, args)
         called = Log.snoc(raw0, ev)
         fwd = z3.BoolVal(False) if unopt(oe) is None else z3.And(
@@ -197,7 +247,7 @@ def install_callbacks(e):
             z(c.ghost["dl"]) == z3.If(zn(cb), dl0, Log.snoc(dl0, ev)),
             z3.Implies(zn(cb), z(c.ghost["raw"]) == raw0),
             z3.Implies(z3.Not(zn(cb)), z3.Or(z(c.ghost["raw"]) == called, fwd)),
-            LIVE(c, app))
+            LIVE(c, app), z(c.ghost["D"]) == d_step(z(old.ghost["D"]), cb, oe))
 
     def cbk_exc_post(c, old, a, exc):
         # the callback (or on_error itself) raised: the invocation is on the logs all the same
@@ -206,24 +256,30 @@ def install_callbacks(e):
         if ext is None:
             return z3.BoolVal(False)
         ev = mk_event(ext.id, cbk_args(a))
-        return z3.And(z3.Not(zn(cb)), z(c.ghost["dl"]) == Log.snoc(z(old.ghost["dl"]), ev), LIVE(c, app))
+        return z3.And(z3.Not(zn(cb)), z(c.ghost["dl"]) == Log.snoc(z(old.ghost["dl"]), ev), LIVE(c, app),
+                      z(c.ghost["D"]) == d_step(z(old.ghost["D"]), cb, old.getf(app, "on_error")))
 
     def cbk_havoc(c, a, old, k):
         app = a["self"]
         for g in ("dl", "raw"):
             c.ghost[g] = SV("log", smt.fresh(Log, g))
+        c.ghost["D"] = c.fresh("int", "D")
         # callbacks may have closed the app
-        if unopt(a["callback"]) is not None and c.choose(2) == 1:
+        if unopt(a["callback"]) is not None:
             app_closed_by_callback(c, app)
 
     def cbk_ghost_entry(c, a):
         # definition of the delivery log: one entry per _callback call whose callback is set
         c.ghost["dl"] = SV("log", log_append(z(c.ghost["dl"]), a["callback"], cbk_args(a)))
-    e.add(Contract(P + "WebSocketApp._callback", cases=[(f"args{n}", cbk_case(n)) for n in range(6)],
+        c.ghost["D"] = SV("int", d_step(z(c.ghost["D"]), a["callback"], c.getf(a["self"], "on_error")))
+    def cbk_case_onerror(c):
+        app = mk_app(c, sock="opt")
+        return dict(self=app, callback=c.getf(app, "on_error"), args=())
+    e.add(Contract(P + "WebSocketApp._callback", cases=[(f"args{n}", cbk_case(n)) for n in range(6)] + [("callback-is-on_error", cbk_case_onerror)],
                    requires=lambda c, a: LIVE(c, a["self"]), ensures=cbk_post, havoc=cbk_havoc,
                    raises=[(KeyboardInterrupt, None, cbk_exc_post), (SystemExit, None, cbk_exc_post),
                            (Exception, lambda c, old, a: z3.Not(zn(old.getf(a["self"], "on_error"))), cbk_exc_post)],
-                   modifies=lambda c, a: ["ghost:dl", "ghost:raw", "ghost:closed_handles", "ghost:auto_close", "ghost:wire",
+                   modifies=lambda c, a: ["ghost:dl", "ghost:raw", "ghost:D", "ghost:closed_handles", "ghost:auto_close", "ghost:wire",
                                           (a["self"], "keep_running"), (a["self"], "sock")],
                    ghost_entry=cbk_ghost_entry, props=("C13", "C14"),
                    doc="callback unset: nothing happens; else exactly one invocation with exactly the given arguments (delivery log dl), and if it "
@@ -307,6 +363,11 @@ def _app_of(a):
     return cl["self"] if isinstance(cl, dict) else cl.locals["self"]
 
 
+def env_of_(a):
+    cl = a["$closure"]
+    return cl if isinstance(cl, dict) else cl.locals
+
+
 def sibling(e, name, env):
     """Closure value for a nested function of run_forever (so that calls dispatch to its contract or inline it)."""
     idx = e.index(app_mod)
@@ -341,7 +402,9 @@ def install_threads(e):
     def th_start(c, a, old, k):
         c.ghost["live_ping_threads"] = SV("int", z(c.ghost["live_ping_threads"]) + 1)
     e.add(Contract("ext:Thread.start", assumed=True, havoc=th_start))
-    e.add(Contract("ext:Thread.is_alive", assumed=True, result=lambda c, a: c.fresh("bool", "alive"), havoc=lambda c, a, old, k: None))
+    e.add(Contract("ext:Thread.is_alive", assumed=True,
+                   result=lambda c, a: SV("bool", z(c.ghost["live_ping_threads"], "int") == 1) if "live_ping_threads" in c.ghost else c.fresh("bool", "alive"),
+                   havoc=lambda c, a, old, k: None, doc="is_alive() of the recorded ping thread <=> it is the live one"))
 
     def th_join(c, a, old, k):
         # assumed: the ping thread leaves its loop once the stop event is set (its loop condition, verified in _send_ping)
@@ -370,14 +433,13 @@ def install_threads(e):
     def spt_post(c, old, a, res):
         app = a["self"]
         return z3.And(z(c.getf(app, "last_ping_tm"), "real") == 0, z(c.getf(app, "last_pong_tm"), "real") == 0,
-                      z3.Implies(z3.Not(zn(old.getf(app, "ping_thread"))), z(c.ghost["live_ping_threads"], "int") <= z(old.ghost["live_ping_threads"], "int")),
-                      thread_inv(c, app))
+                      z(c.ghost["live_ping_threads"], "int") == 0, thread_inv(c, app))
 
     def spt_havoc(c, a, old, k):
         app = a["self"]
         c.setf(app, "last_ping_tm", 0.0)
         c.setf(app, "last_pong_tm", 0.0)
-        c.ghost["live_ping_threads"] = c.fresh("int", "live_ping_threads")
+        c.ghost["live_ping_threads"] = 0
     e.add(Contract(P + "WebSocketApp._stop_ping_thread", cases=[("any", spt_case)], requires=lambda c, a: thread_inv(c, a["self"]),
                    ensures=spt_post, havoc=spt_havoc,
                    modifies=lambda c, a: [(a["self"], "last_ping_tm"), (a["self"], "last_pong_tm"), "ghost:live_ping_threads"],
@@ -420,7 +482,9 @@ def APPINV(c, app, view=None):
     """App-level invariant used by the closures: the WebSocket (if any) is consistent, at most one live transport (the app's own)
     and the ping-thread bookkeeping holds."""
     e_thread = APPINV.thread_inv
-    return z3.And(app_ws_inv(c, app, view), e_thread(c, app, view), LIVE(c, app, view))
+    v = view or c
+    return z3.And(app_ws_inv(c, app, view), e_thread(c, app, view), LIVE(c, app, view),
+                  z3.Implies(z(v.getf(app, "has_done_teardown"), "bool"), z3.Not(z(v.getf(app, "keep_running"), "bool"))))
 
 
 def install_teardown(e):
@@ -481,18 +545,20 @@ def install_teardown(e):
                                 dl1 == Log.snoc(dl0, ev)))
         return z3.And(
             z3.Implies(done0, z3.And(dl1 == dl0, z(c.getf(app, "keep_running"), "bool") == z(old.getf(app, "keep_running"), "bool"),
-                                     z(c.ghost["teardowns"]) == z(old.ghost["teardowns"]))),
+                                     z(c.ghost["teardowns"]) == z(old.ghost["teardowns"]), z(c.ghost["D"]) == z(old.ghost["D"]))),
+            z3.Implies(z3.Not(done0), z(c.ghost["D"]) == 0),
             z3.Implies(z3.Not(done0), td_done(c, app)),
             z3.Implies(z3.Not(done0), dl_ok),
             z3.Implies(z3.Not(done0), z3.And(z(c.ghost["teardowns"]) == z(old.ghost["teardowns"]) + 1,
-                                             z(c.ghost["live_ping_threads"], "int") <= z(old.ghost["live_ping_threads"], "int"))),
+                                             z(c.ghost["live_ping_threads"], "int") == 0)),
             z(c.getf(app, "has_errored"), "bool") == z(old.getf(app, "has_errored"), "bool"), APPINV(c, app))
 
     def td_exc(c, old, a, exc):
         # the on_close callback (last action) raised: teardown has nevertheless completed
         app = td_app(a)
         return z3.And(z3.Not(z(old.getf(app, "has_done_teardown"), "bool")), td_done(c, app),
-                      z(c.getf(app, "has_errored"), "bool") == z(old.getf(app, "has_errored"), "bool"), APPINV(c, app))
+                      z(c.getf(app, "has_errored"), "bool") == z(old.getf(app, "has_errored"), "bool"), APPINV(c, app),
+                      z(c.ghost["live_ping_threads"], "int") == 0, z(c.ghost["D"]) == 0)
 
     def td_entry(c, a):
         pass
@@ -500,7 +566,7 @@ def install_teardown(e):
     def td_after_flag(c, fr, r):
         pass
 
-    TD_GH = ["dl", "raw", "teardowns", "live_ping_threads", "closed_handles", "auto_close", "wire", "tx_calls", "draws", "rpos", "rx_calls",
+    TD_GH = ["dl", "raw", "D", "teardowns", "live_ping_threads", "closed_handles", "auto_close", "wire", "tx_calls", "draws", "rpos", "rx_calls",
              "fstart", "lastf", "clock"]
 
     def td_havoc(c, a, old, k):
@@ -522,8 +588,7 @@ def install_teardown(e):
     def td_mods(c, a):
         app = td_app(a)
         m = [(app, f) for f in ("has_done_teardown", "keep_running", "sock", "last_ping_tm", "last_pong_tm")] + ["ghost:" + g for g in TD_GH]
-        ws = app_ws.get(app.id)
-        if ws is not None and ws.id in c.heap:
+        for ws in cur_ws(c, app):
             fb = c.getf(ws, "frame_buffer")
             m += [(ws, "sock"), (ws, "connected")] + [(fb, f) for f in ("recv_buffer", "header", "length", "mask_value")]
         return m
@@ -541,8 +606,13 @@ def install_teardown(e):
                    props=("C14", "C15"),
                    doc="once only (flag under its lock): stops the ping thread, keep_running' = False, closes and drops the socket, then calls "
                        "on_close exactly once and last, with (code, reason) of the close frame given, else (None, None); has_errored unchanged"))
-    e.after_call[("WebSocketApp.run_forever.<locals>.teardown", "_stop_ping_thread")] = \
-        lambda c, fr, r: c.ghost.__setitem__("teardowns", SV("int", z(c.ghost["teardowns"]) + 1)) if "teardowns" in c.ghost else None
+    def td_ghost(c, fr, r):
+        if "teardowns" in c.ghost:
+            c.ghost["teardowns"] = SV("int", z(c.ghost["teardowns"]) + 1)
+            app = fr.parent.locals["self"] if fr.parent is not None else None
+            if app is not None:
+                c.ghost["D"] = SV("int", z3.If(zn(c.getf(app, "on_close")), 0, -1))
+    e.after_call[("WebSocketApp.run_forever.<locals>.teardown", "_stop_ping_thread")] = td_ghost
 
 
 def install_loop(e):
@@ -603,6 +673,9 @@ def install_loop(e):
             c.setf(ws, "connected", True)
             c.ghost["opened_handles"] = SV("int", z(c.ghost["opened_handles"]) + 1)
         else:
+            c.ghost["fstart"] = c.ghost["rpos"]
+            c.ghost["auto_close"] = 0
+            c.ghost["m_open"] = False
             c.setf(ws, "sock", None)
             c.setf(ws, "connected", False)
     e.add(Contract(K + "WebSocket.connect", cases=[], havoc=conn_havoc,
@@ -651,7 +724,9 @@ def install_loop(e):
         app = app_of(a)
         env = env_of(a)
         rec = env["reconnect"]
-        base = z3.And(z(c.getf(app, "has_errored"), "bool"), z3.BoolVal(res is None), z3.BoolVal(not is_interrupt(a)), APPINV(c, app))
+        base = z3.And(z(c.getf(app, "has_errored"), "bool"), z3.BoolVal(res is None), z3.BoolVal(not is_interrupt(a)), APPINV(c, app),
+                      D_OK(c, old, app),
+                      z(c.ghost["live_ping_threads"], "int") == 0)
         dl_err = dl_after_error(c, old, a)
         if isinstance(rec, int) and rec == 0:
             # no reconnect configured: report, then tear down (on_close last)
@@ -669,30 +744,35 @@ def install_loop(e):
     def hd_interrupt(c, old, a, exc):
         # either the error being handled is itself an interrupt (then teardown ran first), or a callback raised one
         app = app_of(a)
-        return z3.And(z(c.getf(app, "has_errored"), "bool"), APPINV(c, app),
+        return z3.And(z(c.getf(app, "has_errored"), "bool"), APPINV(c, app), z(c.ghost["live_ping_threads"], "int") == 0, D_OK(c, old, app),
                       z3.Implies(z3.And(z3.BoolVal(is_interrupt(a)), zn(old.getf(app, "on_error"))), z(c.getf(app, "has_done_teardown"), "bool")))
 
     def hd_cb_exc(c, old, a, exc):
-        return z3.And(z(c.getf(app_of(a), "has_errored"), "bool"), APPINV(c, app_of(a)))
+        return z3.And(z(c.getf(app_of(a), "has_errored"), "bool"), APPINV(c, app_of(a)), z(c.ghost["live_ping_threads"], "int") == 0,
+                      D_OK(c, old, app_of(a)))
 
     def hd_havoc(c, a, old, k):
         app = app_of(a)
         td.havoc(c, dict(a, close_frame=None), old, 0) if False else None
         c.setf(app, "has_errored", True)
+        c.ghost["D"] = c.fresh("int", "D")
         for g in ("dl", "raw"):
             c.ghost[g] = SV("log", smt.fresh(Log, g))
-        for g in ("teardowns", "resched", "live_ping_threads", "closed_handles", "attempts", "opened_handles"):
+        for g in ("teardowns", "resched", "closed_handles"):
             if g in c.ghost:
                 c.ghost[g] = c.fresh("int", g)
+        c.ghost["live_ping_threads"] = 0
         c.setf(app, "last_ping_tm", 0.0)
         c.setf(app, "last_pong_tm", 0.0)
         c.setf(app, "has_done_teardown", c.fresh("bool", "has_done_teardown"))
         c.setf(app, "keep_running", c.fresh("bool", "keep_running"))
-        c.setf(app, "sock", c.havoc_like(old.getf(app, "sock"), "app.sock") if isinstance(old.getf(app, "sock"), OptV) else None)
+        havoc_sock(c, app, old)
 
     def resched_havoc(c, a, old, k):
         c.ghost["resched"] = SV("int", z(c.ghost["resched"]) + 1)
         c.ghost["resched_delay"] = a["$args"][0]
+    e.add(Contract("ext:rel.read", assumed=True, havoc=lambda c, a, old, k: None,
+                   doc="external dispatcher read(sock, callback): registers the read callback; returns at once"))
     e.add(Contract("ext:rel.timeout", assumed=True, havoc=resched_havoc,
                    doc="external dispatcher timeout(seconds, callback, *args): schedules callback(*args) after `seconds` (one more scheduled attempt)"))
     e.add(Contract(P + RF + "handleDisconnect",
@@ -747,8 +827,10 @@ def install_read(e):
 
     def read_post(c, old, a, res):
         app, env = app_of(a), env_of(a)
-        ws = app_ws[app.id]
+        ws = unopt(old.getf(app, "sock"))
         kr0 = z(old.getf(app, "keep_running"), "bool")
+        if ws is None:
+            return z3.BoolVal(res is None)
         dl0, dl1 = z(old.ghost["dl"]), z(c.ghost["dl"])
         cf = old.getf(ws, "cont_frame")
         fire = old.getf(cf, "fire_cont_frame")
@@ -763,7 +845,7 @@ def install_read(e):
             # with an external dispatcher a lost connection also ends here, through closed(e) -> handleDisconnect
             if env["custom_dispatcher"]:
                 return z3.And(APPINV(c, app), z3.Or(z(c.getf(app, "has_done_teardown"), "bool"), z(c.getf(app, "has_errored"), "bool")))
-            return z3.And(z(c.getf(app, "has_done_teardown"), "bool"), APPINV(c, app),
+            return z3.And(z(c.getf(app, "has_done_teardown"), "bool"), APPINV(c, app), D_OK(c, old, app),
                           z(c.getf(app, "has_errored"), "bool") == z(old.getf(app, "has_errored"), "bool"))
         # one event handed to the callbacks, exactly once, in order
         if fire is True:
@@ -781,7 +863,7 @@ def install_read(e):
             as_str = SV("str", smt.utf8_dec(pay))
             msg_dl = z3.If(text, log_append(log_append(dl0, G("on_data"), (as_str, SV("int", op_ret), True)), G("on_message"), (as_str,)),
                            log_append(log_append(dl0, G("on_data"), (B(pay), SV("int", op_ret), True)), G("on_message"), (B(pay),)))
-        return z3.And(z3.BoolVal(res is True), kr0, APPINV(c, app),
+        return z3.And(z3.BoolVal(res is True), kr0, APPINV(c, app), D_OK(c, old, app),
                       z3.Implies(isdata, dl1 == msg_dl),
                       z3.Implies(d.opcode == 9, dl1 == log_append(dl0, G("on_ping"), (B(d.payload),))),
                       z3.Implies(d.opcode == 10, z3.And(dl1 == log_append(dl0, G("on_pong"), (B(d.payload),)),
@@ -791,14 +873,14 @@ def install_read(e):
                       z(c.getf(app, "has_done_teardown"), "bool") == z(old.getf(app, "has_done_teardown"), "bool"))
 
     def read_exc(c, old, a, exc):
-        return APPINV(c, app_of(a))
+        return z3.And(APPINV(c, app_of(a)), D_OK(c, old, app_of(a)))
 
     def read_havoc(c, a, old, k):
         app = app_of(a)
-        ws = app_ws.get(app.id)
-        if ws is not None and ws.id in c.heap:
+        for ws in cur_ws(c, app)[:1]:
             rdf.havoc(c, dict(self=ws, control_frame=True), old, 0 if k == 0 else 3)
         td.havoc(c, dict(a, close_frame=None), old, 0)
+        havoc_sock(c, app, old)
         c.setf(app, "last_pong_tm", c.fresh("real", "last_pong_tm"))
         c.ghost["clock"] = c.fresh("real", "clock")
 
@@ -807,8 +889,7 @@ def install_read(e):
         m = td.modifies(c, dict(a, close_frame=None)) + [(app, "last_pong_tm"), "ghost:clock", "ghost:resched", "ghost:resched_delay"]
         if env_of(a)["custom_dispatcher"]:
             m += [(app, "has_errored"), "ghost:attempts", "ghost:opened_handles"]
-        ws = app_ws.get(app.id)
-        if ws is not None and ws.id in c.heap:
+        for ws in cur_ws(c, app):
             m += rdf.modifies(c, dict(self=ws))
         return m
     PROP_EXC = [X.WebSocketConnectionClosedException, X.WebSocketProtocolException, X.WebSocketPayloadException, X.WebSocketTimeoutException,
@@ -880,6 +961,7 @@ def install_run(e):
         app = c.getf(fr.locals["self"], "app")
         # every return of select() so far was followed by one call of the check callback
         return z3.And(APPINV(c, app), z3.Implies(z(c.getf(app, "keep_running"), "bool"), z3.Not(zn(c.getf(app, "sock")))),
+                      D_OK(c, entry, app), z3.Implies(z(entry.getf(app, "has_done_teardown"), "bool"), z(c.getf(app, "has_done_teardown"), "bool")),
                       z(c.ghost["selects"]) - z(entry.ghost["selects"]) == z(c.ghost["checks"]) - z(entry.ghost["checks"]),
                       z(c.ghost["selects"]) - z(entry.ghost["selects"]) >= 0)
 
@@ -890,7 +972,7 @@ def install_run(e):
             c.ghost[n] = c.fresh("int", n)
         c.setf(app, "keep_running", c.fresh("bool", "keep_running"))
         c.setf(app, "has_done_teardown", c.fresh("bool", "has_done_teardown"))
-        c.setf(app, "sock", c.havoc_like(entry.getf(app, "sock"), "app.sock") if isinstance(entry.getf(app, "sock"), OptV) else entry.getf(app, "sock"))
+        havoc_sock(c, app, entry)
 
     def dr_mods(c, a):
         app = dr_app(c, a)
@@ -903,10 +985,10 @@ def install_run(e):
         app = dr_app(c, a)
         ds = z(c.ghost["selects"]) - z(old.ghost["selects"])
         dc = z(c.ghost["checks"]) - z(old.ghost["checks"])
-        return z3.And(APPINV(c, app), ds - dc >= 0, ds - dc <= 1)
+        return z3.And(APPINV(c, app), ds - dc >= 0, ds - dc <= 1, z3.Not(z(c.getf(app, "keep_running"), "bool")), D_OK(c, old, app))
 
     def dr_exc(c, old, a, exc):
-        return APPINV(c, dr_app(c, a))
+        return z3.And(APPINV(c, dr_app(c, a)), D_OK(c, old, dr_app(c, a)))
 
     def dr_havoc(c, a, old, k):
         app = dr_app(c, a)
@@ -916,8 +998,7 @@ def install_run(e):
                 c.ghost[n] = c.fresh("int", n)
         c.setf(app, "keep_running", c.fresh("bool", "keep_running"))
         c.setf(app, "has_done_teardown", c.fresh("bool", "has_done_teardown"))
-        s_ = old.getf(app, "sock")
-        c.setf(app, "sock", c.havoc_like(s_, "app.sock") if isinstance(s_, OptV) else OptV(smt.fresh(smt.Bool, "app.sock.isnone"), s_) if s_ is not None else None)
+        havoc_sock(c, app, old)
     DISP_EXC = [X.WebSocketException, OSError, KeyboardInterrupt, SystemExit]
     after_check = lambda c, fr, r: c.ghost.__setitem__("checks", SV("int", z(c.ghost["checks"]) + 1)) if "checks" in c.ghost else None
     for cls in (disp_mod.Dispatcher, disp_mod.SSLDispatcher):
@@ -932,3 +1013,256 @@ def install_run(e):
         e.after_call[(cls.__name__ + ".read", "check_callback")] = after_check
         e.after_call[(cls.__name__ + ".read", "select")] = \
             lambda c, fr, r: c.ghost.__setitem__("selects", SV("int", z(c.ghost["selects"]) + 1)) if "selects" in c.ghost else None
+
+
+def install_run2(e):
+    """DispatcherBase.reconnect, setSock, run_forever, create_dispatcher, WebSocketApp.close, _send_ping."""
+    import websocket._dispatcher as disp_mod
+    D = "websocket._dispatcher:"
+    K = "websocket._core:"
+    td = e.contracts[P + RF + "teardown"]
+    rd = e.contracts[P + RF + "read"]
+    hd = e.contracts[P + RF + "handleDisconnect"]
+    drd = e.contracts[D + "Dispatcher.read"]
+    app_of, env_of = _app_of, lambda a: (a["$closure"] if isinstance(a["$closure"], dict) else a["$closure"].locals)
+    SS_GH = ["dl", "raw", "D", "teardowns", "live_ping_threads", "closed_handles", "opened_handles", "attempts", "resched", "auto_close", "wire",
+             "tx_calls", "draws", "rpos", "rx_calls", "fstart", "lastf", "clock", "rx", "m_open", "m_op", "m_data", "selects", "checks", "reads",
+             "last_attempt_clock", "pong_acc", "npings"]
+
+    def havoc_all(c, app, old):
+        for g in SS_GH:
+            if g in c.ghost:
+                v = c.ghost[g]
+                c.ghost[g] = SV("log", smt.fresh(Log, g)) if g in ("dl", "raw") else (c.havoc_like(v, g) if isinstance(v, SV) else c.fresh("int", g))
+        for f, sh in (("keep_running", "bool"), ("has_errored", "bool"), ("has_done_teardown", "bool"), ("last_ping_tm", "real"), ("last_pong_tm", "real")):
+            c.setf(app, f, c.fresh(sh, f))
+        c.setf(app, "stop_ping", c.fresh(("opt", ("ext", "Event")), "stop_ping"))
+        c.setf(app, "ping_thread", c.fresh(("opt", ("ext", "Thread")), "ping_thread"))
+
+    # ---- setSock(reconnecting) ---------------------------------------------------------------------
+    def ss_case(reconnect, custom):
+        def case(c):
+            app = mk_app(c, sock="opt")
+            for n in ("selects", "checks", "reads"):
+                c.ghost.setdefault(n, c.fresh("int", n))
+            c.ghost["pong_acc"] = SV("bytes", smt.empty)
+            c.ghost["npings"] = 0
+            disp = c.alloc("obj", disp_mod.WrappedDispatcher if custom else disp_mod.Dispatcher,
+                           dict(app=app, ping_timeout=c.fresh("real", "select_timeout"), dispatcher=c.new_ext("rel"), handleDisconnect=None))
+            env = rf_env(c, e, app, custom_dispatcher=custom, dispatcher=disp, reconnect=(c.fresh("int", "reconnect") if reconnect else 0),
+                         sockopt=(), sslopt=c.alloc("dict", None, {}), http_proxy_host=None, http_proxy_port=None, http_no_proxy=None,
+                         http_proxy_auth=None, http_proxy_timeout=None, host=None, origin=None, suppress_origin=False, proxy_type=None)
+            if reconnect:
+                c.assume(z(env["reconnect"]) > 0)
+            return {"$closure": env, "reconnecting": c.fresh("bool", "reconnecting")}
+        return case
+
+    def ss_req(c, a):
+        app = app_of(a)
+        # a first attempt starts without a socket; a reconnect may find the previous one
+        return z3.And(APPINV(c, app), z3.Or(z(a["reconnecting"], "bool"), zn(c.getf(app, "sock"))),
+                      z(c.ghost["live_ping_threads"], "int") == 0)
+
+    def ss_post(c, old, a, res):
+        app, env = app_of(a), env_of(a)
+        rec = env["reconnect"]
+        nodis = isinstance(rec, int) and rec == 0
+        base = z3.And(APPINV(c, app), z(c.ghost["attempts"]) == z(old.ghost["attempts"]) + 1)
+        if not env["custom_dispatcher"]:
+            base = z3.And(base, z3.Implies(z3.Not(z(old.getf(app, "has_done_teardown"), "bool")), D_OK(c, old, app)))
+        return base
+
+    def ss_exc(c, old, a, exc):
+        app = app_of(a)
+        if env_of(a)["custom_dispatcher"]:
+            return APPINV(c, app)
+        return z3.And(APPINV(c, app), z3.Implies(z3.Not(z(old.getf(app, "has_done_teardown"), "bool")), D_OK(c, old, app)))
+
+    def ss_havoc(c, a, old, k):
+        app = app_of(a)
+        havoc_all(c, app, old)
+        c.setf(app, "sock", OptV(smt.fresh(smt.Bool, "app.sock.isnone"), mk_ws(c, recv_state="any", keysrc="none", sock="opt")))
+
+    def ss_mods(c, a):
+        app = app_of(a)
+        return [app] + ["ghost:" + g for g in SS_GH] + td.modifies(c, dict(a, close_frame=None))
+    e.add(Contract(P + RF + "setSock",
+                   cases=[(f"reconnect={'on' if r else 'off'},{'external' if cu else 'builtin'}-dispatcher", ss_case(r, cu))
+                          for r in (False, True) for cu in (False, True)],
+                   requires=ss_req, ensures=ss_post, havoc=ss_havoc, modifies=ss_mods,
+                   raises=[(KeyboardInterrupt, None, ss_exc), (SystemExit, None, ss_exc),
+                           (Exception, lambda c, old, a: z3.Not(zn(old.getf(app_of(a), "on_error"))), ss_exc)],
+                   props=("C13", "C14", "C15"),
+                   doc="one connection attempt and, if it succeeds, the whole life of that connection: a previous socket is shut down before the new "
+                       "one is created (never two live transports), exactly one connect attempt, ping thread only after a successful connect, "
+                       "then exactly one of on_reconnect (reconnecting and set) / on_open before the dispatcher starts reading; every failure goes "
+                       "to handleDisconnect"))
+    # on_open / on_reconnect come before any read callback of that connection: ghost check at the dispatcher call
+    e.after_call[("WebSocketApp.run_forever.<locals>.setSock", "connect")] = \
+        lambda c, fr, r: c.ghost.__setitem__("$dl_at_connect", c.ghost["dl"])
+
+
+def install_run3(e):
+    import websocket._dispatcher as disp_mod
+    D = "websocket._dispatcher:"
+    ss = e.contracts[P + RF + "setSock"]
+    td = e.contracts[P + RF + "teardown"]
+    app_of = _app_of
+
+    # ---- DispatcherBase.reconnect(seconds, reconnector) ---------------------------------------------
+    def rc_case(c):
+        app = mk_app(c, sock="opt")
+        for n in ("selects", "checks", "reads"):
+            c.ghost.setdefault(n, c.fresh("int", n))
+        c.ghost["pong_acc"] = SV("bytes", smt.empty)
+        c.ghost["npings"] = 0
+        c.ghost["last_attempt_clock"] = c.fresh("real", "last_attempt_clock")
+        disp = c.alloc("obj", disp_mod.Dispatcher, dict(app=app, ping_timeout=c.fresh("real", "select_timeout")))
+        rec = c.fresh("int", "reconnect")
+        c.assume(rec.t > 0)
+        env = rf_env(c, e, app, custom_dispatcher=False, dispatcher=disp, reconnect=rec)
+        return dict(self=disp, seconds=rec, reconnector=env["setSock"])
+
+    def rc_app(c, a):
+        return c.getf(a["self"], "app")
+
+    def rc_req(c, a):
+        app = rc_app(c, a)
+        return z3.And(APPINV(c, app), z(c.ghost["live_ping_threads"], "int") == 0)
+
+    def rc_post(c, old, a, res):
+        app = rc_app(c, a)
+        return z3.And(APPINV(c, app), z(c.ghost["attempts"]) == z(old.ghost["attempts"]) + 1,
+                      # the attempt comes after the interval
+                      z(c.ghost["last_attempt_clock"], "real") >= z(old.ghost["clock"], "real") + z(a["seconds"], "real"),
+                      z3.Implies(z(c.getf(app, "keep_running"), "bool"), z(c.ghost["live_ping_threads"], "int") == 0),
+                      z3.Implies(z(c.getf(app, "has_done_teardown"), "bool"), z3.Not(z(c.getf(app, "keep_running"), "bool"))))
+
+    def rc_exc(c, old, a, exc):
+        return APPINV(c, rc_app(c, a))
+
+    def rc_havoc(c, a, old, k):
+        ss.havoc(c, {"$closure": {"self": rc_app(c, a)}, "reconnecting": True}, old, k)
+    e.add(Contract(D + "DispatcherBase.reconnect", cases=[("builtin", rc_case)], requires=rc_req, ensures=rc_post, havoc=rc_havoc,
+                   modifies=lambda c, a: ss.modifies(c, {"$closure": {"self": rc_app(c, a)}}),
+                   raises=[(KeyboardInterrupt, None, rc_exc), (SystemExit, None, rc_exc),
+                           (Exception, lambda c, old, a: z3.Not(zn(old.getf(rc_app(c, a), "on_error"))), rc_exc)],
+                   props=("C15",),
+                   doc="sleeps for the interval, then makes exactly one connection attempt (reconnector(reconnecting=True)): the attempt's "
+                       "timestamp is at least `seconds` after entry"))
+    # the attempt timestamp and liveness facts come from setSock's contract; tie them here
+    base_post = ss.ensures
+
+    def ss_post2(c, old, a, res):
+        app = app_of(a)
+        done0, done1 = z(old.getf(app, "has_done_teardown"), "bool"), z(c.getf(app, "has_done_teardown"), "bool")
+        extra = [z3.Implies(z(c.getf(app, "keep_running"), "bool"), z(c.ghost["live_ping_threads"], "int") == 0),
+                 z(c.ghost["teardowns"]) == z(old.ghost["teardowns"]) + z3.If(z3.And(done1, z3.Not(done0)), 1, 0),
+                 z3.Implies(done0, done1)] + ([] if env_of_(a)["custom_dispatcher"] else [
+                     z3.Implies(done1, z3.And(zn(c.getf(app, "sock")), z(c.ghost["live_ping_threads"], "int") == 0))]) + [
+                 z3.Implies(z(c.getf(app, "has_done_teardown"), "bool"), z3.Not(z(c.getf(app, "keep_running"), "bool")))]
+        if "last_attempt_clock" in c.ghost and "clock" in old.ghost:
+            extra.append(z(c.ghost["last_attempt_clock"], "real") >= z(old.ghost["clock"], "real"))
+        return z3.And(base_post(c, old, a, res), *extra)
+    ss.ensures = ss_post2
+
+
+def install_run_forever(e):
+    import websocket._dispatcher as disp_mod
+    D = "websocket._dispatcher:"
+    ss = e.contracts[P + RF + "setSock"]
+    td = e.contracts[P + RF + "teardown"]
+    SS_MODS = ss.modifies
+
+    # parse_url as used here (its own contract: C18)
+    if "websocket._url:parse_url" not in e.contracts:
+        e.add(Contract("websocket._url:parse_url", cases=[], assumed=True,
+                       result=lambda c, a: (c.fresh("str", "host"), c.fresh("int", "port"), c.fresh("str", "resource"), c.fresh("bool", "is_secure")),
+                       raises=[(ValueError, None, None)], havoc=lambda c, a, old, k: None))
+    e.add(Contract("ext:rel.signal", assumed=True, havoc=lambda c, a, old, k: None))
+
+    def rf_case(reconnect, custom):
+        def case(c):
+            app = mk_app(c, sock="opt")
+            for n in ("selects", "checks", "reads"):
+                c.ghost.setdefault(n, c.fresh("int", n))
+            c.ghost["pong_acc"] = SV("bytes", smt.empty)
+            c.ghost["npings"] = 0
+            d = dict(self=app, ping_interval=c.fresh(("opt", "real"), "ping_interval"), ping_timeout=c.fresh(("opt", "real"), "ping_timeout"),
+                     ping_payload=c.fresh("str", "payload"))
+            if reconnect:
+                d["reconnect"] = c.fresh("int", "reconnect")
+                c.assume(d["reconnect"].t > 0)
+            else:
+                d["reconnect"] = 0
+            if custom:
+                d["dispatcher"] = c.new_ext("rel", abort=c.new_ext("callback"))
+            return d
+        return case
+
+    def bad_settings(c, old, a):
+        app = a["self"]
+        pi, pt = a.get("ping_interval", 0), a.get("ping_timeout")
+        PI, PT = unopt(pi), unopt(pt)
+        pin, ptn = zn(pi), zn(pt)
+        piv = z(PI, "real") if PI is not None else z3.RealVal(0)
+        ptv = z(PT, "real") if PT is not None else z3.RealVal(0)
+        return z3.Or(z3.And(z3.Not(ptn), ptv <= 0), z3.And(z3.Not(pin), piv < 0),
+                     z3.And(z3.Not(ptn), ptv != 0, z3.Not(pin), piv != 0, piv <= ptv),
+                     z3.Not(zn(old.getf(app, "sock"))))
+
+    def refused(c, old, a, exc):
+        app = a["self"]
+        return z3.And(z(c.ghost["attempts"]) == z(old.ghost["attempts"]), z(c.ghost["dl"]) == z(old.ghost["dl"]),
+                      z(c.ghost["opened_handles"]) == z(old.ghost["opened_handles"]))
+
+    def ended(c, old, a):
+        """state after a run with the built-in dispatcher, however it ended."""
+        app = a["self"]
+        # on_close delivered in exactly one teardown, and no callback other than an on_error report after it
+        last_is_close = z(c.ghost["D"]) <= 0
+        return z3.And(z(c.getf(app, "has_done_teardown"), "bool"), z3.Not(z(c.getf(app, "keep_running"), "bool")), zn(c.getf(app, "sock")),
+                      z(c.ghost["teardowns"]) == z(old.ghost["teardowns"]) + 1, last_is_close,
+                      z(c.ghost["live_ping_threads"], "int") == 0,
+                      z(c.ghost["opened_handles"]) == z(c.ghost["closed_handles"]))
+
+    def rf_req(c, a):
+        app = a["self"]
+        return z3.And(APPINV(c, app), z(c.ghost["live_ping_threads"], "int") == 0, z3.Not(z(c.getf(app, "keep_running"), "bool")))
+
+    def rf_post(c, old, a, res):
+        app = a["self"]
+        base = z3.And(z3.Not(bad_settings(c, old, a)), z(res, "bool") == z(c.getf(app, "has_errored"), "bool"))
+        if "dispatcher" in a:
+            return base
+        return z3.And(base, ended(c, old, a))
+
+    def rf_sysexit(c, old, a, exc):
+        return ended(c, old, a) if "dispatcher" not in a else z3.BoolVal(True)
+
+    def rf_inv(c, fr, entry):
+        app = fr.locals["self"]
+        kr = z(c.getf(app, "keep_running"), "bool")
+        return z3.And(APPINV(c, app), z3.Implies(kr, z(c.ghost["live_ping_threads"], "int") == 0),
+                      # no on_close between attempts: teardown happened at most once, and only when the run is over
+                      z(c.ghost["teardowns"]) == z(entry.ghost["teardowns"]) + z3.If(z(c.getf(app, "has_done_teardown"), "bool"), 1, 0),
+                      z3.Implies(z(c.getf(app, "has_done_teardown"), "bool"), z3.And(z3.Not(kr), z(c.ghost["D"]) <= 0)))
+
+    def rf_loop_havoc(c, fr, entry):
+        ss.havoc(c, {"$closure": {"self": fr.locals["self"]}, "reconnecting": True}, entry, 0)
+    e.loop("WebSocketApp.run_forever", 0, inv=rf_inv, havoc=rf_loop_havoc,
+           modifies=lambda c, fr: SS_MODS(c, {"$closure": {"self": fr.locals["self"]}}))
+    e.add(Contract(P + "WebSocketApp.run_forever",
+                   cases=[(f"reconnect={'on' if r else 'off'},{'external' if cu else 'builtin'}-dispatcher", rf_case(r, cu))
+                          for r in (False, True) for cu in (False, True)],
+                   requires=rf_req, ensures=rf_post, result=lambda c, a: c.fresh("bool", "errored"),
+                   havoc=lambda c, a, old, k: ss.havoc(c, {"$closure": {"self": a["self"]}, "reconnecting": False}, old, 0),
+                   modifies=lambda c, a: SS_MODS(c, {"$closure": {"self": a["self"]}}),
+                   raises=[(X.WebSocketException, bad_settings, refused), (SystemExit, None, rf_sysexit),
+                           (ValueError, None, refused), (KeyboardInterrupt, None, rf_sysexit),
+                           (Exception, lambda c, old, a: z3.Not(zn(old.getf(a["self"], "on_error"))), rf_sysexit)],
+                   props=("C14", "C15", "C16"),
+                   doc="inconsistent ping settings (timeout <= 0, interval < 0, interval <= timeout) or an already open socket are refused with "
+                       "WebSocketException before any connection attempt; otherwise, with the built-in dispatcher, on every exit path (try/except/"
+                       "finally) teardown has run exactly once in this run, on_close is the last callback delivered, the socket is dropped, no "
+                       "transport and no ping thread is left, and the return value is has_errored (reset at entry)"))
